@@ -63,13 +63,13 @@ def c05_one_class(code: int, boost: int, ser: int, nsdepth: int) -> bool:
 def c05_two_classes(a: int, b: int, fshape: int, boost: int) -> bool:
     """
     Two classes in sequence (the second may derive from the first): every id of the second is shifted by the first.
-    pre: 0 <= a < NREP and 0 <= b < NB2 and 0 <= fshape < 4 and 0 <= boost < BMAX
+    pre: 0 <= a < NREP and 0 <= b < NB2 and 0 <= fshape < (4 if THOROUGH else 1) and 0 <= boost < BMAX
     post: _
     """
     a, b, fshape, boost = pick(a, 0, NREP), pick(b, 0, NC), pick(fshape, 0, 4), pick(boost, 0, 2)
     with concrete():
         if not THOROUGH:
-            b, boost = REPS[(b + 5) % NREP], (a + b) % 2
+            b, boost, fshape = REPS[(b + 5) % NREP], (a + b) % 2, (a + 3 * b) % 4
         ok = check([REPS[a], b], fshape, 1, boost, 3 if boost else 0)
     reached({"a": REPS[a], "b": b, "fshape": fshape, "boost": boost} if (not ok or (a == 3 and b == 77)) else None)
     return ok
@@ -78,13 +78,13 @@ def c05_two_classes(a: int, b: int, fshape: int, boost: int) -> bool:
 def c05_three_classes(a: int, b: int, c: int, fshape: int) -> bool:
     """
     Three classes and free functions (overloaded, defaulted, non-consecutive overloads) in one namespace.
-    pre: 0 <= a < NREP and 0 <= b < NREP and 0 <= c < (NREP if THOROUGH else 3) and 0 <= fshape < (4 if THOROUGH else 1)
+    pre: 0 <= a < NREP and 0 <= b < NREP and 0 <= c < (NREP if THOROUGH else 1) and 0 <= fshape < (4 if THOROUGH else 1)
     post: _
     """
     a, b, c, fshape = pick(a, 0, NREP), pick(b, 0, NREP), pick(c, 0, NREP), pick(fshape, 0, 4)
     with concrete():
         if not THOROUGH:
-            c, fshape = (c * 4 + a + b) % NREP, (a + 2 * b + c) % 4
+            c, fshape = (5 + a + 7 * b) % NREP, (a + 2 * b) % 4
         ok = check([REPS[a], REPS[b], REPS[c]], fshape, (a + b) % 3, (a + c) % 2, 5)
     reached({"a": REPS[a], "b": REPS[b], "c": REPS[c], "fshape": fshape} if not ok else None)
     return ok
